@@ -73,6 +73,7 @@ def plan(tier, seed):
     for U in aU:
         for P in range(1, aP + 1):
             jobs.append(("asm", P, U, tuple((F.numerator, F.denominator) for F in Fs), 0))
+    jobs.append(("usage", 3, 3, seed, 0))
     jobs.sort(key=lambda j: -(j[1] ** 3) * j[2] ** 2)
     return jobs
 
@@ -87,6 +88,8 @@ def run_job(job):
     kind = job[0]
     if kind == "call":
         return job_call(job)
+    if kind == "usage":
+        return job_usage(job)
     return job_asm(job)
 
 
@@ -238,4 +241,79 @@ def job_asm(job):
                 {"kind": "job", "job": job},
             )
         r.sample({"assemble": True, "P": P, "U": U, "F": str(F), "n_genotypes": len(gens), "sum": total}, cap=2)
+    return r
+
+
+def job_usage(job):
+    """the prior *as the assemble sampler uses it*: the haplotype-space size handed to every sub-step is prod(n_alleles), and the
+    temperature exchange evaluates the same Dirichlet-multinomial prior (with the sample's inbreeding) for both chains"""
+    import types
+    import mchap.assemble.mcmc as mc
+    from mchap.assemble import tempering
+    from mchap.jitutils import get_haplotype_dosage
+    from ..seams import Oracle, NumpyProxy, patched, unpatched
+    from .. import kasm
+
+    r = Result()
+    payload = {"kind": "job", "job": job}
+    # (a) log_unique_haplotypes reaching the moves, for mixed allele counts
+    for n_alleles in ((2, 3, 2, 4), (2, 2), (3, 3, 4), (4, 2), (2,), (3, 2, 2)):
+        seen = []
+
+        def mut(**kw):
+            seen.append(("mutation", float(kw["log_unique_haplotypes"]), float(kw["inbreeding"])))
+            return kw["llk"], kw["cache"]
+
+        def strc(**kw):
+            seen.append(("structural", float(kw["log_unique_haplotypes"]), float(kw["inbreeding"])))
+            return kw["llk"], kw["cache"]
+
+        def swap(**kw):
+            seen.append(("exchange", float(kw["log_unique_haplotypes"]), float(kw.get("inbreeding", -1))))
+            return kw["llk_i"], kw["llk_j"]
+
+        nb = len(n_alleles)
+        g = np.zeros((2, nb), np.int8)
+        reads = np.full((1, nb, max(n_alleles)), 1.0 / max(n_alleles))
+        o = Oracle([], rand_values=(0.0,))
+        with patched((mc, "np", NumpyProxy(o)), (mc, "mutation", types.SimpleNamespace(compound_step=mut)),
+                     (mc, "structural", types.SimpleNamespace(compound_step=strc, random_breaks=lambda b, n: np.array([[0, n]]))),
+                     (mc, "chain_swap_step", swap), (mc, "random_choice", lambda p: 0)):
+            mc._denovo_assembler.py_func(genotype=g, inbreeding=0.3, reads=reads, read_counts=None, n_alleles=np.array(n_alleles, np.int64), steps=1,
+                                         break_dist=np.array([1.0]), recombination_step_probability=1.0, partial_dosage_step_probability=1.0,
+                                         dosage_step_probability=1.0, temperatures=np.array([0.5, 1.0]), return_heated_trace=False, llk_cache_threshold=-1)
+        want = math.log(float(np.prod(n_alleles)))
+        r.evaluations += 1
+        r.nontrivial += 1
+        for who, luh, F in seen:
+            if abs(luh - want) > 1e-9 or abs(F - 0.3) > 1e-12:
+                r.violation("usage-haplotype-space|%s" % who, "n_alleles=%r: %s receives log_unique_haplotypes=%.9g (exp -> %.4g haplotypes) and inbreeding %g; the flat prior is over prod(n_alleles)=%d haplotypes, inbreeding 0.3" % (
+                    n_alleles, who, luh, math.exp(luh), F, int(np.prod(n_alleles))), payload)
+                break
+        if not {"mutation", "structural", "exchange"} <= {w for w, _, _ in seen}:
+            r.violation("usage-coverage", "sub-steps reached: %r" % sorted({w for w, _, _ in seen}), payload)
+        r.outcome((n_alleles, round(want, 9)))
+    # (b) priors entering the exchange acceptance
+    inst = kasm.Instance(3, (2, 2), 0, job[3])
+    real_acc = tempering.chain_swap_acceptance
+    got = {}
+
+    def acc(llk_i, lp_i, t_i, llk_j, lp_j, t_j):
+        got["p"] = (float(lp_i), float(lp_j))
+        with unpatched():
+            return real_acc(llk_i, lp_i, t_i, llk_j, lp_j, t_j)
+
+    for F in (0.0, 0.25, 0.6):
+        for si in inst.states:
+            for sj in inst.states:
+                gi, gj = kasm.as_array(si), kasm.as_array(sj)
+                o = Oracle([0], rand_values=(2.0,))
+                with patched((tempering, "np", NumpyProxy(o)), (tempering, "chain_swap_acceptance", acc)):
+                    tempering.chain_swap_step.py_func(gi, -1.0, 1.0, gj, -2.0, 0.5, inst.luh, F)
+                wi, wj = math.log(inst.prior(si, F)), math.log(inst.prior(sj, F))
+                r.evaluations += 1
+                r.nontrivial += 1
+                if abs(got["p"][0] - wi) > 1e-9 or abs(got["p"][1] - wj) > 1e-9:
+                    r.violation("usage-exchange-prior|F=%g" % F, "exchange between %r and %r uses log priors %r, the (Dirichlet-)multinomial prior with F=%g gives %r" % (si, sj, got["p"], F, (wi, wj)), payload)
+    r.sample({"usage": "haplotype-space size and priors as used by _denovo_assembler / chain_swap_step"})
     return r
